@@ -22,7 +22,7 @@ int Bus::node_of_board(const std::string &id) const {
 	return -1;
 }
 
-void Bus::build_tree(DP &dp, const cfg::Config &c, const std::vector<bool> &present, int unknown, int max_depth) {
+void Bus::build_tree(DP &dp, const cfg::Config &c, const std::vector<bool> &present, int unknown, int max_depth, bool deep) {
 	nodes.clear();
 	std::vector<int> todo;           // board indices to place
 	for (size_t i = 0; i < c.boards.size(); i++)
@@ -59,6 +59,10 @@ void Bus::build_tree(DP &dp, const cfg::Config &c, const std::vector<bool> &pres
 		for (size_t p = 0; p < nodes.size(); p++)
 			if ((p == 0 || (nodes[p].uid[0] & 0x80)) && (int) nodes[p].addr.size() < max_depth && nodes[p].children.size() < 30) parents.push_back((int) p);
 		int par = parents[dp.weighted({3, 2}) == 0 || parents.size() == 1 ? 0 : dp.pick((unsigned) parents.size())];
+		if (deep && parents.size() > 1 && dp.chance(150)) {
+			// prefer the deepest interface: chains down to the third address level
+			for (int pc : parents) if (nodes[(size_t) pc].addr.size() > nodes[(size_t) par].addr.size()) par = pc;
+		}
 		uint8_t local;
 		int guard = 0;
 		bool clash;
